@@ -4,6 +4,7 @@ import (
 	"context"
 	"errors"
 	"fmt"
+	"strings"
 	"time"
 
 	"github.com/itchyny/gojq"
@@ -25,6 +26,37 @@ var c07Programs = []string{
 	"def f: . as $x | f; f", "def f: .a as $x | {a: $x} | f; {a: 1} | f", "def f: 1 + f; f", "def f: [.] | f; f", "repeat(.)", "limit(infinite; repeat(1))", "first(repeat(empty))", "isempty(repeat(empty))",
 	"def f: def g: f; g; f", "def f(x): f(x); f(.)", "[range(infinite)]", "foreach repeat(1) as $x (0; .+1)", "label $out | repeat(1)", "try repeat(error) catch 1 | repeat(.)", "path(repeat(.[0]?))", "repeat(.[0]?) |= 1",
 	"[limit(infinite; 1, 2)] | repeat(.[])", "def f: if true then f else . end; f", "def f: (1 | f) // 2; f", "def f: 1, (2 | f); f", "range(0; infinite; 1) | select(. < 0)",
+}
+
+// c07ErrorPrograms raise, between them, every kind of error the interpreter and its natives can raise.
+var c07ErrorPrograms = []string{
+	`path([1]|.[])`, `path({}|.[])`, `path([]|.[])`, `path(1|.a)`, `path([1]|.[0])`, `path([1]|.[0:1])`, `path({"a":1}|.a)`, `path(getpath(["a"])|.[0])`, `path([1] | first(.[]))`, `[1] as $x | path($x[])`,
+	`1|.[]`, `{}|.[0]`, `"a"|.[0]`, `[]|.a`, `error`, `error(null)`, `error({})`, `error("x")`, `null|error`, `1|keys`, `{}|has(0)`, `"x"|tonumber`, `[1114112]|implode`, `{"a":1}|.[]|error`,
+	`break $l`, `1 as [$a] | $a`, `1 as {a: $x} | $x`, `[1] as {a: $x} | $x`, `try error("x") catch error`, `[1]|.a = 1`, `null|setpath(1; 1)`, `delpaths(1)`, `[1]|del(.a)`, `1|to_entries`, `[1]|from_entries`,
+	`"a"|splits(1)`, `"a"|test("(")`, `"a"|test("a"; "x")`, `"a"|@base64d|.[0]`, `"{"|fromjson`, `"x"|strptime("%Y")`, `"a"|mktime`, `"a"|todate`, `1/0`, `1%0`, `{}|.[1:2]`, `range("a")`, `[1]|join(",")|.[0]`,
+	`"\(error)"`, `reduce error as $x (0; .)`, `foreach error as $x (0; .)`, `limit(1; error)`, `first(error)`, `isempty(error)`, `[error]`, `{a: error}`, `{(error): 1}`, `error | .`, `.[error]`, `.[1:error]?`, `-error`,
+	`error + 1`, `1 + error`, `error as $x | 1`, `if error then 1 else 2 end`, `def f: error; f`, `def f(g): g; f(error)`, `path(error)`, `[paths(error)]`, `getpath(["a", 0, "b"])`, `{} | .a.b |= error`, `[1] | .[0] |= error`,
+	`limit(-1; 1)`, `nth(-1; 1)`, `[1]|.[{}]`, `{}|.[[]]`, `ltrimstr(1)|error`, `[[1]]|implode`, `"a"|ascii_downcase|error`, `{}|tojson|fromjson|.a|error`, `[1,2]|combinations(-1)?|error`, `input_is_not_defined_here`,
+	`$__undefined`, `{} | keys[0] | error`, `splits("a")`, `[.[]?] | sort_by(error)`, `[1] | map(error)`, `[1] | group_by(error)`, `{} | with_entries(error)`, `[1] | min_by(error)`, `tostream | error`, `fromstream(error)`,
+	`cerr1`, `cerr1 | . + 1`, `1 as $x | cerr1 | . + $x`, `cerrmid`, `cerrmid | . + 1`, `cferr`, `cferr(1)`, `cerr0`, `cval1`, `cerr1, cerr1`, `cerrarg(1, 2)`, `cerrarg(.[]?)`, `cvalerr`,
+	`getpath(error)`, `setpath([error]; 1)`, `[1] | .[0] = error`, `[1] | .[error] = 1`, `. as [$a] ?// {a: $a} | error`, `label $f | error | break $f`, `try error catch (error)`, `(error)?`, `error // 1`, `1 // error`, `(1, error, 2)`,
+}
+
+type c07ValueError struct{ v any }
+
+func (e *c07ValueError) Error() string { return fmt.Sprint("error: ", e.v) }
+func (e *c07ValueError) Value() any    { return e.v }
+
+// c07Custom are Go functions that fail in the documented ways (an error value, an iterator over an error,
+// an iterator failing in the middle); the lifecycle programs may call them at any position.
+var c07Custom = []gojq.CompilerOption{
+	gojq.WithIterFunction("cerr1", 0, 0, func(any, []any) gojq.Iter { return gojq.NewIter[any](errors.New("boom")) }),
+	gojq.WithIterFunction("cerr0", 0, 0, func(any, []any) gojq.Iter { return gojq.NewIter[any]() }),
+	gojq.WithIterFunction("cval1", 0, 0, func(v any, _ []any) gojq.Iter { return gojq.NewIter(v) }),
+	gojq.WithIterFunction("cvalerr", 0, 0, func(v any, _ []any) gojq.Iter { return gojq.NewIter[any](&c07ValueError{v}) }),
+	gojq.WithIterFunction("cerrmid", 0, 0, func(any, []any) gojq.Iter { return gojq.NewIter[any](1, errors.New("mid"), 2) }),
+	gojq.WithIterFunction("cerrarg", 1, 1, func(_ any, a []any) gojq.Iter { return gojq.NewIter[any](a[0], &c07ValueError{a[0]}) }),
+	gojq.WithFunction("cferr", 0, 1, func(any, []any) any { return errors.New("plain") }),
 }
 
 type c07Trace struct {
@@ -171,8 +203,58 @@ func c07CancelBetween(code *gojq.Code, in any, ref *c07Trace) (msg string) {
 			return fmt.Sprintf("after the cancellation Next returned (%v, true)", v)
 		}
 	}
+	// the same with the standard library's contexts, whose cause may differ from their error: Next returns ctx.Err()
+	cause := errors.New("the cause is not the error")
+	for j := 0; j <= min(n, 3); j++ {
+		for kind := 0; kind < 5; kind++ {
+			var ctx context.Context
+			cancel := func() {}
+			switch kind {
+			case 0:
+				c, f := context.WithCancel(context.Background())
+				ctx, cancel = c, f
+			case 1:
+				c, f := context.WithCancelCause(context.Background())
+				ctx, cancel = c, func() { f(cause) }
+			case 2:
+				p, f := context.WithCancelCause(context.Background())
+				ctx, cancel = context.WithValue(p, c07Key{}, 1), func() { f(cause) }
+			case 3:
+				c, f := context.WithTimeoutCause(context.Background(), time.Hour, cause)
+				ctx, cancel = c, f
+			case 4:
+				if j > 0 {
+					continue
+				}
+				c, f := context.WithDeadlineCause(context.Background(), time.Now().Add(-time.Second), cause)
+				ctx = c
+				defer f()
+			}
+			it := code.RunWithContext(ctx, univ.Copy(in))
+			for i := 0; i < j; i++ {
+				if v, ok := it.Next(); !ok || !univ.Equal(v, ref.vals[i]) {
+					cancel()
+					return fmt.Sprintf("output %d differs from the uncancelled run (standard context %d)", i, kind)
+				}
+			}
+			cancel()
+			if j == len(ref.vals) && ref.ended && ref.endErr == nil && kind != 4 {
+				// nothing is left to do: ending normally and reporting the cancellation are both prompt
+				continue
+			}
+			v, ok := it.Next()
+			if !ok || v != ctx.Err() {
+				return fmt.Sprintf("standard context kind %d cancelled after %d outputs: Next returned (%v, %v), the context's error is %v", kind, j, v, ok, ctx.Err())
+			}
+			if v, ok := it.Next(); ok {
+				return fmt.Sprintf("after the cancellation Next returned (%v, true) (standard context %d)", v, kind)
+			}
+		}
+	}
 	return ""
 }
+
+type c07Key struct{}
 
 func c07Run(c *engine.Ctx) {
 	horizon := int64(3000)
@@ -294,6 +376,24 @@ func c07Run(c *engine.Ctx) {
 			progs = append(progs, g.Program(x))
 		}
 	}
+	// one program per way of failing (every error type of the interpreter, raised at the outermost position, where no
+	// fork is left below it), alone and in a few contexts; and every small path expression applied to a computed value
+	for _, e := range c07ErrorPrograms {
+		for _, ctx := range []string{"%", "%, 1", "1, %", "[%]", "(%) | .", ". | (%)", "first(%)", "(%) as $x | $x", ".[]? | (%)", "label $l | (%)", "(%)?, 2", "try (%) catch error", "path(%)", "(%) |= 1", "{a: (%)}", "def f: (%); f"} {
+			progs = append(progs, strings.ReplaceAll(ctx, "%", e))
+		}
+	}
+	pg := GrammarPaths()
+	for _, es := range pg.BySize(2) {
+		for _, x := range es {
+			for _, src := range []string{`[[1],{"a":2}]`, `{"a":[1],"b":{}}`, `{}`, `[]`, `1`, `[.]`, `{a: .}`, `$__prog_undefined_is_not_used`} {
+				if strings.HasPrefix(src, "$") {
+					continue
+				}
+				progs = append(progs, "path("+src+" | "+x.S+")", "("+src+" | "+x.S+") |= 1", "del("+src+" | "+x.S+")", "["+src+" | paths("+x.S+")]")
+			}
+		}
+	}
 	for i, src := range progs {
 		if !c.MineIdx(i) {
 			continue
@@ -302,7 +402,7 @@ func c07Run(c *engine.Ctx) {
 		if err != nil {
 			continue
 		}
-		code, err := gojq.Compile(q)
+		code, err := gojq.Compile(q, c07Custom...)
 		if err != nil {
 			continue
 		}
@@ -437,7 +537,11 @@ func c07Replay(v *engine.Violation) (bool, string) {
 	if err != nil {
 		return false, "does not parse"
 	}
-	code, err := gojq.Compile(q)
+	var opts []gojq.CompilerOption
+	if v.Check == "lifecycle" {
+		opts = c07Custom
+	}
+	code, err := gojq.Compile(q, opts...)
 	if err != nil {
 		return false, "does not compile"
 	}
@@ -469,9 +573,9 @@ func init() {
 		Level: "fault_enumeration",
 		Rule: "for each of ~85 programs (finite and infinite: every loop form, tail calls compiled to jumps and to callrec, native iterators, updates, paths) x 3 inputs, EVERY cancellation point k = 0..N is enumerated, k being the index of the interpreter's poll of ctx.Done() (a poll-counting context, no timers; N = the run's own length + 2, or the horizon 3000/12000 for infinite programs); the same for every plain-query case of cli/test.yaml on its own inputs (horizon 400/2500); " +
 			"each case checks prefix consistency against the uncancelled trace, that the very Next that polled returns the context's error without another step, and exhaustion afterwards; plus the iterator lifecycle (false forever after false, no panic after an emitted error, cancellation after exhaustion) over the whole corpus and an error grammar. A case is one (program, input, k).",
-		Assume:         []string{"the VM polls ctx.Done() exactly once per instruction, so a poll index is a deterministic cancellation point"},
-		Run:            c07Run,
-		Replay:         c07Replay,
+		Assume:          []string{"the VM polls ctx.Done() exactly once per instruction, so a poll index is a deterministic cancellation point"},
+		Run:             c07Run,
+		Replay:          c07Replay,
 		QuickBudget:     150 * time.Second,
 		ThoroughBudget:  20 * time.Minute,
 		HangIsViolation: true,
